@@ -31,9 +31,13 @@ def unL(tok):
 
 # ----------------------------------------------------------------------------- bin archive file
 def bin_write(endian, data, strings=None, pointers=None, labels=None, rng=None, shuffle_tables=False,
-              junk_text=False, dup_strings=False):
+              junk_text=False, dup_strings=False, tail_share=False):
     """endian 'L'|'B'; data bytes; strings {cell: bytes}; pointers {cell: dest}; labels [(address, name bytes)]
-    (bucket order = list order).  Returns the file image."""
+    (bucket order = list order).  Returns the file image.
+    tail_share: a string (cell text or label name) that is a proper SUFFIX of a longer string of the image is not stored on
+    its own: its reference points into the MIDDLE of the longer NUL-terminated string ("a.bin" as the tail of "data.bin",
+    the label "Info" as the tail of "SceneInfo") - what a string-pooling packer does; the format only asks for a
+    NUL-terminated string at the referenced position."""
     e = "<" if endian == "L" else ">"
     strings = dict(strings or {})
     pointers = dict(pointers or {})
@@ -62,6 +66,10 @@ def bin_write(endian, data, strings=None, pointers=None, labels=None, rng=None, 
     def add(s, share=True):
         if share and s in offs:
             return offs[s]
+        if tail_share:
+            for t in sorted(offs, key=len, reverse=True):
+                if len(t) > len(s) and t.endswith(s):
+                    return offs[t] + len(t) - len(s)
         if junk_text and rng is not None and rng.random() < 0.3:
             text.extend(bytes(rng.randint(1, 255) for _ in range(rng.randint(1, 3))) + b"\0")
         o = len(text)
@@ -69,6 +77,10 @@ def bin_write(endian, data, strings=None, pointers=None, labels=None, rng=None, 
         offs[s] = o
         return o
 
+    if tail_share:
+        # the longest strings first, so that every suffix finds its host
+        for t in sorted(set(strings.values()) | set(n for (_, n) in ltab), key=len, reverse=True):
+            add(t)
     text_start = len(d) + 4 * len(ptab) + 8 * len(ltab)
     lrecs = []
     for (a, n) in ltab:
@@ -211,7 +223,7 @@ def text_read(fmt, endian, f):
 def arc_write(files, rng, padded=True, permute_bodies=True, unaligned=False, gaps=False, count_first=True,
               extra_labels=True, shuffle_tables=False, drop=None, bad_name=None, bad_range=None, count_delta=0,
               junk_text=False, raw_offset=None, dup_strings=False, tail=0.0, end_exact=False, share=False, empty_last=False,
-              indices="seq", decoys=None, data_label="base"):
+              indices="seq", decoys=None, data_label="base", sentinel=True, tail_share=False):
     """files: [(name bytes, body bytes)] in RECORD order.  Returns (image, expected) with expected = 'ok' or the
     name of the error the property demands.  Knobs: header padding, body placement (order, alignment, gaps),
     Count before/after Info, extra labels; error variants: drop = 'count' | 'info' (label missing),
@@ -224,7 +236,8 @@ def arc_write(files, rng, padded=True, permute_bodies=True, unaligned=False, gap
     address equals the size of the data region when end_exact is set).  decoys = 'count' | 'info' | 'both': the label also
     sits on HIGHER addresses (a word holding a wrong count / a place that holds no table): the lowest address carrying the
     label is the one that counts (find_label_address after the repair 10408e9), so the expectation is unchanged; the
-    decoy entries precede the real ones in the label list half of the time.  indices = what the records' index field holds:
+    decoy entries precede the real ones in the label list half of the time.  sentinel = False: no junk word at data offset 0
+    of an un-padded image (bodies from offset 0).  indices = what the records' index field holds:
     'seq' (0, 1, 2 ...), 'zero' (all 0), 'dup' (some values repeated), 'random' (arbitrary 32-bit values) - the property
     keys entries by NAME; the index field carries no meaning for extraction (seeded change C16-3 collected records in a map
     keyed by it and lost records sharing a value).  The knobs draw random numbers only when switched on."""
@@ -239,8 +252,10 @@ def arc_write(files, rng, padded=True, permute_bodies=True, unaligned=False, gap
     d = bytearray()
     if padded:
         d += bytes(0x60)
-    else:
+    elif sentinel:
         d += struct.pack("<I", rng.randint(1, 0xFFFFFFFF))     # first word non-zero: no padded header
+    # sentinel=False: an un-padded image whose bodies start at data offset 0 ("any placement of file bodies"); when its
+    # first data word is 0 the library takes it for a padded image (known finding F27)
     base = 0x60 if padded else 0
     order = list(range(len(files)))
     if permute_bodies:
@@ -354,8 +369,11 @@ def arc_write(files, rng, padded=True, permute_bodies=True, unaligned=False, gap
     elif drop == "info":
         labels = [(a, n) for (a, n) in labels if n != b"Info"]
         expected = "err:noinfo"
+    elif drop == "both":
+        labels = [(a, n) for (a, n) in labels if n not in (b"Count", b"Info")]
+        expected = "err:nocount"              # Count is looked up first
     image = bin_write("L", d, strings=strings, labels=labels, rng=rng, shuffle_tables=shuffle_tables, junk_text=junk_text,
-                      dup_strings=dup_strings)
+                      dup_strings=dup_strings, tail_share=tail_share)
     return image, expected
 
 
